@@ -120,7 +120,9 @@ func Compare(w *mc.World, m *model.State, tracked []string) []Disc {
 	// ---------------- enterprise
 	{
 		var pr enttypes.QueryParamsResponse
-		must(w.Query("/mainchain.enterprise.v1.Query/Params", &enttypes.QueryParamsRequest{}, &pr))
+		if qe := w.Query("/mainchain.enterprise.v1.Query/Params", &enttypes.QueryParamsRequest{}, &pr); qe != nil {
+			add(Disc{Kind: "listquery.failed", Detail: fmt.Sprintf("query %s fails on a reachable state: %v", "/mainchain.enterprise.v1.Query/Params", qe)})
+		}
 		want := EntParamsReal(w, model.EntParamsRaw{Denom: m.Ent.P.Denom, Signers: strings.Join(m.Ent.P.Signers, ","), Min: m.Ent.P.Min, Limit: m.Ent.P.Limit})
 		if pr.Params != want {
 			add(disc("params.ent", "enterprise params: implementation %+v, model %+v", pr.Params, want))
@@ -160,7 +162,9 @@ func Compare(w *mc.World, m *model.State, tracked []string) []Disc {
 		}
 		// whitelist
 		var wl enttypes.QueryWhitelistResponse
-		must(w.Query("/mainchain.enterprise.v1.Query/Whitelist", &enttypes.QueryWhitelistRequest{}, &wl))
+		if qe := w.Query("/mainchain.enterprise.v1.Query/Whitelist", &enttypes.QueryWhitelistRequest{}, &wl); qe != nil {
+			add(Disc{Kind: "listquery.failed", Detail: fmt.Sprintf("query %s fails on a reachable state: %v", "/mainchain.enterprise.v1.Query/Whitelist", qe)})
+		}
 		got := map[string]bool{}
 		for _, a := range wl.Addresses {
 			got[NameOfBech(w, a)] = true
@@ -180,12 +184,16 @@ func Compare(w *mc.World, m *model.State, tracked []string) []Disc {
 				continue
 			}
 			var lr enttypes.QueryLockedUndByAddressResponse
-			must(w.Query("/mainchain.enterprise.v1.Query/LockedUndByAddress", &enttypes.QueryLockedUndByAddressRequest{Owner: BechOf(w, n)}, &lr))
+			if qe := w.Query("/mainchain.enterprise.v1.Query/LockedUndByAddress", &enttypes.QueryLockedUndByAddressRequest{Owner: BechOf(w, n)}, &lr); qe != nil {
+			add(Disc{Kind: "listquery.failed", Detail: fmt.Sprintf("query %s fails on a reachable state: %v", "/mainchain.enterprise.v1.Query/LockedUndByAddress", qe)})
+		}
 			if lr.Amount.Amount.BigInt().Cmp(m.LockedOf(n)) != 0 {
 				add(disc("ent.locked", "locked eFUND of %s: implementation %s, model %s", n, lr.Amount.Amount, m.LockedOf(n)))
 			}
 			var sr enttypes.QuerySpentEFUNDByAddressResponse
-			must(w.Query("/mainchain.enterprise.v1.Query/SpentEFUNDByAddress", &enttypes.QuerySpentEFUNDByAddressRequest{Address: BechOf(w, n)}, &sr))
+			if qe := w.Query("/mainchain.enterprise.v1.Query/SpentEFUNDByAddress", &enttypes.QuerySpentEFUNDByAddressRequest{Address: BechOf(w, n)}, &sr); qe != nil {
+			add(Disc{Kind: "listquery.failed", Detail: fmt.Sprintf("query %s fails on a reachable state: %v", "/mainchain.enterprise.v1.Query/SpentEFUNDByAddress", qe)})
+		}
 			if sr.Amount.Amount.BigInt().Cmp(m.SpentOf(n)) != 0 {
 				add(disc("ent.spent", "spent eFUND of %s: implementation %s, model %s", n, sr.Amount.Amount, m.SpentOf(n)))
 			}
@@ -199,12 +207,16 @@ func Compare(w *mc.World, m *model.State, tracked []string) []Disc {
 	// ---------------- streams
 	{
 		var pr streamtypes.QueryParamsResponse
-		must(w.Query("/mainchain.stream.v1.Query/Params", &streamtypes.QueryParamsRequest{}, &pr))
+		if qe := w.Query("/mainchain.stream.v1.Query/Params", &streamtypes.QueryParamsRequest{}, &pr); qe != nil {
+			add(Disc{Kind: "listquery.failed", Detail: fmt.Sprintf("query %s fails on a reachable state: %v", "/mainchain.stream.v1.Query/Params", qe)})
+		}
 		if !pr.Params.ValidatorFee.Equal(DecFromString(m.FeeNum)) {
 			add(disc("params.str", "stream validator fee: implementation %s, model %s", pr.Params.ValidatorFee, m.FeeNum))
 		}
 		var sr streamtypes.QueryStreamsResponse
-		must(w.Query("/mainchain.stream.v1.Query/Streams", &streamtypes.QueryStreamsRequest{Pagination: &query.PageRequest{Limit: 1000}}, &sr))
+		if qe := w.Query("/mainchain.stream.v1.Query/Streams", &streamtypes.QueryStreamsRequest{Pagination: &query.PageRequest{Limit: 1000}}, &sr); qe != nil {
+			add(Disc{Kind: "listquery.failed", Detail: fmt.Sprintf("query %s fails on a reachable state: %v", "/mainchain.stream.v1.Query/Streams", qe)})
+		}
 		seen := map[string]bool{}
 		for _, r := range sr.Streams {
 			k := NameOfBech(w, r.Receiver) + "|" + NameOfBech(w, r.Sender)
@@ -262,14 +274,18 @@ func compareAnchor(w *mc.World, m *model.State, wrk bool) []Disc {
 	// params
 	if wrk {
 		var pr wrkchaintypes.QueryParamsResponse
-		must(w.Query("/mainchain.wrkchain.v1.Query/Params", &wrkchaintypes.QueryParamsRequest{}, &pr))
+		if qe := w.Query("/mainchain.wrkchain.v1.Query/Params", &wrkchaintypes.QueryParamsRequest{}, &pr); qe != nil {
+			add(Disc{Kind: "listquery.failed", Detail: fmt.Sprintf("query %s fails on a reachable state: %v", "/mainchain.wrkchain.v1.Query/Params", qe)})
+		}
 		want := wrkchaintypes.NewParams(a.P.FeeReg, a.P.FeeRec, a.P.FeePur, a.P.Denom, a.P.Default, a.P.Max)
 		if pr.Params != want {
 			add(disc("params.wrk", "wrkchain params: implementation %+v, model %+v", pr.Params, want))
 		}
 	} else {
 		var pr beacontypes.QueryParamsResponse
-		must(w.Query("/mainchain.beacon.v1.Query/Params", &beacontypes.QueryParamsRequest{}, &pr))
+		if qe := w.Query("/mainchain.beacon.v1.Query/Params", &beacontypes.QueryParamsRequest{}, &pr); qe != nil {
+			add(Disc{Kind: "listquery.failed", Detail: fmt.Sprintf("query %s fails on a reachable state: %v", "/mainchain.beacon.v1.Query/Params", qe)})
+		}
 		want := beacontypes.NewParams(a.P.FeeReg, a.P.FeeRec, a.P.FeePur, a.P.Denom, a.P.Default, a.P.Max)
 		if pr.Params != want {
 			add(disc("params.bcn", "beacon params: implementation %+v, model %+v", pr.Params, want))
